@@ -57,3 +57,14 @@ def specSlo (eps : List (Endpoint α)) (out : Option (Pick α)) : Bool :=
   | _ => true
 
 end Routing
+
+namespace Routing
+variable {α : Type} [DecidableEq α]
+
+/-- Several targets: every request that is sent goes to an endpoint of ITS OWN target. -/
+def specSloAll : List (List (Endpoint α)) → List (Option (Pick α)) → Bool
+  | eps :: rest, o :: os => specSlo eps o && specSloAll rest os
+  | [], [] => true
+  | _, _ => false
+
+end Routing
